@@ -65,6 +65,16 @@ def run(rep, tier):
     rep.rule("R-C03-example", "every context-free (example-based) pointer translation inside the wrappers and struct specialisations is given the address of the sandbox-memory object involved: a pointer decoded relative "
              "to an application-side address (a local copy, the destination object) is a non-null tainted pointer outside the sandbox (shared analysis with C04's R-C04-example)")
     from . import c04 as _c04
+    rep.rule("R-C03-array", "a whole array of pointers is converted element by element with every destination element written (null to null, everything else through the backend translation): an element that is "
+             "skipped keeps whatever the destination held - an uninitialised tainted pointer (shared analysis with C04's R-C04-route)")
+    from ..report import RuleView
+    for db in dbs:
+        for f in db.functions:
+            if not f["dep"] and "body" in f and f["n"] == "rlbox::detail::convert_type_non_class":
+                try:
+                    _c04.check_route(RuleView(rep, {"R-C04-route": "R-C03-array"}), db, f, "%s | %s" % (db.label, f["full"][:150]))
+                except Inconclusive as ex:
+                    rep.inconclusive("R-C03-array", site(f), str(ex), "%s | %s" % (db.label, f["full"][:150]))
     for db in dbs:
         rep.units.append(db.label)
         for f in db.functions:
